@@ -678,9 +678,13 @@ fn frame_rl(b: &[u8]) -> u64 {
 }
 
 fn enc5(c: &Fields) -> Fields {
-    if c.is_empty() || c[0].len() != 2 || c[0][1] > 1 {
+    // config: peer maximum packet size, no_problem_info, optionally the capability calls the server makes after
+    // the handshake: bit 0 set_retain_available(false), 1 set_sub_ids_available(false), 2 set_retain_available(true),
+    // 3 set_sub_ids_available(true)
+    if c.is_empty() || !(c[0].len() == 2 || c[0].len() == 3) || c[0][1] > 1 || (c[0].len() == 3 && c[0][2] > 15) {
         return vec![vec![99]];
     }
+    let caps = c[0].get(2).copied().unwrap_or(0);
     let mut ops = Vec::new();
     for f in &c[1..] {
         match parse_op(f) {
@@ -702,6 +706,18 @@ fn enc5(c: &Fields) -> Fields {
             other => panic!("setup CONNECT not decoded: {other:?}"),
         }
         assert_eq!(codec_npi(&codec), 1);
+    }
+    if caps & 1 != 0 {
+        ntex_mqtt::verif_hooks::codec_v5_set_caps(&codec, Some(false), None);
+    }
+    if caps & 2 != 0 {
+        ntex_mqtt::verif_hooks::codec_v5_set_caps(&codec, None, Some(false));
+    }
+    if caps & 4 != 0 {
+        ntex_mqtt::verif_hooks::codec_v5_set_caps(&codec, Some(true), None);
+    }
+    if caps & 8 != 0 {
+        ntex_mqtt::verif_hooks::codec_v5_set_caps(&codec, None, Some(true));
     }
 
     let mut out: Fields = Vec::new();
